@@ -41,7 +41,7 @@ def ang_close(a, b, tol_deg=1e-7):
 
 def run(ctx):
     rng = ctx.rng
-    nbase = ctx.n(12, 150)
+    nbase = ctx.n(12, 300)
     bases = []
     cases = []
     for bi in range(nbase):
